@@ -5,7 +5,7 @@ using namespace vf;
 namespace {
 namespace c05 { enum K { SUB_PLAIN = 0, SUB_SELFVIEW, SUB_UNIQUE_PTR, H_UNSUB, S_UNSUB, MUTE, UNMUTE, INVALIDATE, SELF_INVALIDATE_NEXT, H_MOVE_CONSTRUCT, H_MOVE_ASSIGN, NOTIFY, FOREIGN_UNSUB, PROBE }; }
 namespace c10 { enum A { SUBSCRIBE = 0, UNSUBSCRIBE, MUTE, UNMUTE, INVALIDATE, NESTED_NOTIFY, SELF_INVALIDATE }; }
-namespace c16 { enum K { ASSIGN = 0, ADD, SUB, MUL, DIV, PRE_INC, POST_INC, PRE_DEC, POST_DEC, APPLY_SET, APPLY_ADD, APPLY_NOOP, SUBSCRIBE, UNSUBSCRIBE, ASSIGN_SAME, ASSIGN_OTHER_TYPE }; }
+namespace c16 { enum K { ASSIGN = 0, ADD, SUB, MUL, DIV, PRE_INC, POST_INC, PRE_DEC, POST_DEC, APPLY_SET, APPLY_ADD, APPLY_NOOP, SUBSCRIBE, UNSUBSCRIBE, ASSIGN_SAME, ASSIGN_OTHER_TYPE, SUBSCRIBE_CLAMP }; }
 
 Register r05("C05", [](Tier t) {
     using namespace c05;
@@ -30,8 +30,8 @@ Register r16("C16", [](Tier t) {
     using namespace c16;
     auto ops = genOps({{ASSIGN, 8, 40, 0, 2}, {ASSIGN_SAME, 3, 0, 0, 2}, {ASSIGN_OTHER_TYPE, 4, 40, 7, 1}, {ADD, 5, 40, 0, 0}, {SUB, 3, 40, 0, 0}, {MUL, 2, 40, 0, 0}, {DIV, 2, 40, 0, 0},
                        {PRE_INC, 2, 0, 0, 0}, {POST_INC, 2, 0, 0, 0}, {PRE_DEC, 2, 0, 0, 0}, {POST_DEC, 2, 0, 0, 0}, {APPLY_SET, 3, 40, 0, 0},
-                       {APPLY_ADD, 3, 40, 0, 0}, {APPLY_NOOP, 2, 0, 0, 0}, {SUBSCRIBE, 5, 5, 0, 0}, {UNSUBSCRIBE, 2, 5, 0, 0}}, t == THOROUGH ? 120 : 60);
-    // h[0]: value type (long | double with NearEq | std::string), h[1]: initial value selector, h[2]: tolerance selector
-    return genCase("C16", genHeader({{0, 2}, {0, 40}, {0, 3}}), ops);
+                       {APPLY_ADD, 3, 40, 0, 0}, {APPLY_NOOP, 2, 0, 0, 0}, {SUBSCRIBE, 5, 5, 0, 0}, {SUBSCRIBE_CLAMP, 2, 40, 0, 0}, {UNSUBSCRIBE, 2, 5, 0, 0}}, t == THOROUGH ? 120 : 60);
+    // h[0]: value type (long | double with NearEq | std::string | unsigned char | float with NearEq | int), h[1]: initial value selector, h[2]: tolerance selector
+    return genCase("C16", genHeader({{0, 5}, {0, 40}, {0, 3}}), ops);
 });
 } // namespace
